@@ -1,5 +1,7 @@
 import Hub.Drv.Util
 import Hub.Model.Store
+import Hub.Model.Crash
+import Hub.Generated.CrashPoints
 /-! Driver for `store.hist`: replays a history on the store model with the real run's ids, times and
 dataset ids, and renders the same canonical observations as the harness. -/
 namespace Hub.Drv.Store
@@ -313,7 +315,7 @@ def reresolveOne (s : S) (v : VKey × Ent) : VKey × Ent :=
 
 def reresolve (s : S) : S := { s with db := { s.db with versions := s.db.versions.map (reresolveOne s) } }
 
-def doOp (a : Acc) (idx : Nat) (op : Json) : R Acc := do
+def doOpCore (a : Acc) (idx : Nat) (op : Json) : R Acc := do
   let s := regIds a.s ((getOpt op "newids").getD (Json.mkObj []))
   -- identifiers get their internal id lazily (the refs of a deleted version are only asserted when the
   -- next version is diffed against it): re-resolve the refs of stored versions once ids are known
@@ -413,6 +415,49 @@ def doOp (a : Acc) (idx : Nat) (op : Json) : R Acc := do
         return { r with s := a.s }
     else doQuery a op
   | _ => throw s!"bad op {kind}"
+
+/-- the function whose crash points belong to an operation kind. -/
+def crashFunc : String → String
+  | "store" => "StoreEntities" | "txn" => "ExecuteTransaction" | "createDs" => "CreateDataset"
+  | "deleteDs" => "DeleteDataset" | "renameDs" => "UpdateDataset" | _ => "?"
+
+/-- C04: the inner operation of a `crash` op ran in a child process that was killed at `point` (unless
+the point was never reached). The model predicts from the regenerated step order whether the operation
+landed; the state follows what was observed (for an unacknowledged call either outcome is legal, but
+nothing in between: the following queries are answered from `h` or from `h ++ [op]`). -/
+def doOp (a : Acc) (idx : Nat) (op : Json) : R Acc := do
+  if (← getStr op "op") != "crash" then doOpCore a idx op else
+  let inner ← getObj op "inner"
+  let ikind ← getStr inner "op"
+  let died := getBoolD op "died" false
+  let observed := getBoolD op "landed" false
+  let point ← getStr op "point"
+  -- a point inside a nested call (the store of the dataset's meta entity into core.Dataset): the operation
+  -- itself is already durable. For a plain store the nested call is the second hit of the same function.
+  let nested := !(point.startsWith (crashFunc ikind)) || (ikind == "store" && getNatD op "hit" 1 ≥ 2)
+  let predicted : Option Bool :=
+    if !died then some ((getStrD inner "rc" "") == "")
+    else if nested then some true
+    else match ikind with
+      | "store" => Hub.Crash.landedAt Hub.Facts.Crash.points_StoreEntities "txn.Commit" 1 point
+      | "txn" => Hub.Crash.landedAt Hub.Facts.Crash.points_ExecuteTransaction "txn.Commit" 1 point
+      | "createDs" => Hub.Crash.landedAt Hub.Facts.Crash.points_CreateDataset "storeValue" 2 point
+      | "deleteDs" => Hub.Crash.landedAt Hub.Facts.Crash.points_DeleteDataset "deleteValueAndStoreObject" 1 point
+      | "renameDs" => Hub.Crash.landedAt Hub.Facts.Crash.points_UpdateDataset "moveValue" 1 point
+      | _ => none
+  let applied ← doOpCore a idx inner
+  -- identifiers the crashed call handed out may be committed although its data is not
+  let skipped ← doOpCore a idx (Json.mkObj [("op", Json.str "reopen"), ("newids", (getOpt op "newids").getD (Json.mkObj []))])
+  -- an operation that writes nothing (identical versions, rejected, dataset exists already / is unknown):
+  -- landed or not cannot be told from outside and does not matter
+  let writesNothing := applied.s.db.versions.length == skipped.s.db.versions.length
+      && applied.s.dsid.length == skipped.s.dsid.length && applied.s.db.deletedDs.length == skipped.s.db.deletedDs.length
+      && (applied.s.dsid.map (·.1)) == (skipped.s.dsid.map (·.1))
+  let js := Json.mkObj [("landed", Json.bool observed)]
+  let jm := if writesNothing then js else
+    match predicted with | some b => Json.mkObj [("landed", Json.bool b)] | none => Json.mkObj [("landed", Json.str "unknown-point")]
+  let a1 := if observed then applied else skipped
+  return { a1 with outM := a1.outM.push jm, outS := a1.outS.push js, nt := a1.nt + (if died then 1 else 0) }
 
 def hist (inp : Json) : R Res := do
   let ops ← getArr inp "ops"
